@@ -27,11 +27,17 @@ Lemma progn_is_sequence : forall m n st sc es, eval m (S n) st sc (EProgn es) = 
 Proof. reflexivity. Qed.
 Lemma progn_single : forall m n st sc e, eval m (S n) st sc (EProgn [e]) = eval m n st sc e.
 Proof. intros. simpl. destruct (eval m n st sc e) as [[v|er] s]; reflexivity. Qed.
-(* (if (car (mapcar (lambda (x) (values nil x)) '(1 2))) 1 2) : mapcar collects Values objects *)
+(* repaired (repo_fixes/C01-17): mapcar collects the primary value of each call.
+   (if (car (mapcar (lambda (x) (values nil x)) '(1 2))) 1 2) => 2 in every mode *)
 Definition w_mapcar_values :=
   [EIf (EPrim PCar [EMapcar (ELambda ["x"] [EValues [ENil; EVar "x"]]) [EQuote (DList [DInt 1; DInt 2])]]) (I 1) (Some (I 2))].
-Lemma mapcar_values_refuted : fst (runM 60 w_mapcar_values) <> fst (runS 60 w_mapcar_values) /\ guardb 60 w_mapcar_values = false.
-Proof. differ. Qed.
+Example mapcar_collects_primary_values :
+  forallb (fun m => match fst (run m 60 w_mapcar_values) with Ok (VInt 2) => true | _ => false end) [Slip; Ref; Chk] = true.
+Proof. vm_compute; reflexivity. Qed.
+Lemma mapcar_collects_primary : forall m ev st c row rows v st1 vs st2,
+  apply_fn m ev st c row = (Ok v, st1) -> ev_map m ev st1 c rows = (Ok vs, st2) ->
+  ev_map m ev st c (row :: rows) = (Ok (primary v :: vs), st2).
+Proof. intros m ev st c row rows v st1 vs st2 H1 H2. simpl. rewrite H1. simpl. rewrite H2. reflexivity. Qed.
 (* repaired (repo_fixes/C01-15, C01-16): setq returns the one value it stored, a cond clause without forms the primary
    value of its test.
    (let ((x 0)) (multiple-value-bind (a b) (setq x (values 1 2)) (list a b)))   => (1 nil)
